@@ -409,3 +409,15 @@ Theorem c01_include_assign_is_visible_after : forall g ld f tn x v c b,
   = mk SDone (set_locals c (dict_set x v (locals c))) b.
 Proof. exact include_assign_is_visible_after. Qed.
 Print Assumptions c01_include_assign_is_visible_after.
+
+(** `{% liquid ... %}` is exactly the block of its line statements (layout of
+    the statements does not matter); a comment writes and changes nothing. *)
+Theorem c01_liquid_tag_is_its_block : forall g ld f body c b,
+  render g ld (S f) (NLiquid body) c b = block g (render g ld f) body c b.
+Proof. exact liquid_tag_is_its_block. Qed.
+Print Assumptions c01_liquid_tag_is_its_block.
+
+Theorem c01_comment_is_inert : forall g ld f c b,
+  render g ld (S f) NComment c b = mk SDone c b.
+Proof. exact comment_is_inert. Qed.
+Print Assumptions c01_comment_is_inert.
